@@ -356,6 +356,9 @@ class Evaluator:
             if e["op"] == "Deref":
                 return self.ev(e["e"], env)
             raise Unrecognised("unary op")
+        if k == "bin" and (e.get("resolved") or e.get("callee")) and _PRIM_REF_OP.match(str(e.get("resolved") or e.get("callee"))):
+            # std's forwarding impls of the arithmetic operators for references to primitive integers (`&u16 - u16`): the primitive operator
+            e = {k_: v for k_, v in e.items() if k_ not in ("resolved", "callee")}
         if k == "bin" and (e.get("resolved") or e.get("callee")) and e.get("op") not in ("Eq", "Ne", "Lt", "Le", "Gt", "Ge", "And", "Or"):
             # an overloaded operator is a call of its impl
             cal = e.get("resolved") or e.get("callee")
@@ -534,6 +537,12 @@ class Evaluator:
                 if 0 <= i_[1] < len(base) - 1:
                     return base[1 + i_[1]]
                 raise Unrecognised(f"index {i_[1]} out of bounds of a {len(base) - 1}-element table")
+            if base is not None and base[0] == "array" and i_[0] == "rec" and set(i_[1]) <= {"start", "end"} and all(v[0] == "int" for v in i_[1].values()):
+                lo = i_[1]["start"][1] if "start" in i_[1] else 0
+                hi = i_[1]["end"][1] if "end" in i_[1] else len(base) - 1
+                if not 0 <= lo <= hi <= len(base) - 1:
+                    raise Unrecognised(f"slice {lo}..{hi} out of bounds of a {len(base) - 1}-element sequence: would panic")
+                return ("array",) + tuple(base[1 + lo:1 + hi])
             raise Unrecognised("indexing outside a constant table")
         if k == "closure":
             return ("closure", e, env)
@@ -851,6 +860,10 @@ class Evaluator:
                 return o[1] if o[0] == "some" else ("str", "")
             if short == "unwrap_or":
                 return o[1] if o[0] == "some" else args[1]
+            if short in ("unwrap", "expect", "unwrap_unchecked"):
+                if o[0] == "some":
+                    return o[1]
+                raise Unrecognised(f"Option::{short} on None: would panic")
             if short == "is_some":
                 return ("bool", o[0] == "some")
             if short == "is_none":
@@ -1085,6 +1098,10 @@ def _next_call(e):
         if n.get("k") == "match" and hir.is_call(hir.simp(n["scrut"]), "Iterator::next"):
             return hir.simp(n["scrut"])
     return None
+
+
+import re as _re_mod
+_PRIM_REF_OP = _re_mod.compile(r"^<&?(?:'\w+ )?(u8|u16|u32|u64|usize|i8|i16|i32|i64|isize) as core::ops::(arith|bit)::\w+<&?(?:'\w+ )?\1>>::\w+$")
 
 
 def _erase_lifetimes(t):
